@@ -789,6 +789,8 @@ def encode(c):
                 impl = impl or run_impl_cached(c)
                 if 'steps' not in impl:
                     return None
+                if not all(math.isfinite(x) for x in impl['steps'][k]['v']):
+                    return None      # non-finite values on the live object: nothing to tell the model, the oracle reports it
                 out += [6] + C.enc_list([F(x) for x in impl['steps'][k]['v']], C.enc_q)
             else:
                 out += enc_op(o)
